@@ -111,7 +111,7 @@ fn table_plans(ctx: &Ctx) -> Vec<TablePlan> {
 }
 
 /// the convenience methods that also rename the owner must agree with map_class + map_field / map_method
-fn real_refs<R: BRemapper + ?Sized>(r: &R, owner: &ObjClassName, q: &Query, evals: &mut u64) -> std::result::Result<std::result::Result<Vec<(String, String, String)>, String>, Panic> {
+pub fn real_refs<R: BRemapper + ?Sized>(r: &R, owner: &ObjClassName, q: &Query, evals: &mut u64) -> std::result::Result<std::result::Result<Vec<(String, String, String)>, String>, Panic> {
 	vcore::guard(|| -> std::result::Result<Vec<(String, String, String)>, String> {
 		let e = |e: anyhow::Error| format!("{e:#}");
 		let s = |x: &java_string::JavaStr| x.as_str_lossy().into_owned();
@@ -283,8 +283,8 @@ fn run_table_job<const N: usize>(ctx: &Ctx, plan: &TablePlan, job: u64) -> Stats
 				if !acc[0].same_target(&acc[1]) {
 					ta.add("table:entry-without-target-name");
 				}
-				// the *_ref methods
-				if owner == 0 || owner == 2 {
+				// the *_ref methods (for every owner: also the class with partial rows, the unknown one and A's other name)
+				{
 					let exp_class = fwd.cands(&names[owner]);
 					match real_refs(&rb, &typed[owner], qu, &mut evals) {
 						Err(p) => ctx.diff(&format!("panic@{}", p.file()), &format!("a *_ref method panicked at {}: {}", p.site, p.msg), || case.render()),
